@@ -242,6 +242,96 @@ pub fn seam_shapes(report: &Report, tier: Tier, seed: u64) {
     report.space("interleave(S) for every count of low-order zero bytes 0..31 x every count of high-order zero bytes x 4 fills; server and client S steered to every one of those shapes through the internal-function seam");
 }
 
+/// The server's public key B = (3v + g^b) mod N on values an honest login reaches once in 2^31 or less: the stored
+/// verifier is chosen (v = (T - g^b) / 3 mod N, plus multiples of N while it still fits 32 bytes) so that B must come
+/// out as a chosen target T. Targets: every count of high-order zero bytes (short B), every count of low-order zero
+/// bytes, T within 2^k of 0 and of N (k*v + g^b just above / just below a multiple of N, for every reachable quotient).
+pub fn steered_server_keys(report: &Report, tier: Tier, seed: u64) {
+    use wow_srp::server::SrpVerifier;
+    let n = srp::n_builtin();
+    let inv3 = U::from_u64(3).inv_prime(&n);
+    let mut targets: Vec<(U, String)> = vec![];
+    for hz in 0..32usize {
+        for pat in [0u8, 3] {
+            if let Some(t) = shaped(0, hz, pat, seed) {
+                targets.push((U::from_le_bytes(&t), format!("{hz} high zero bytes")));
+            }
+        }
+    }
+    for lz in 1..32usize {
+        if let Some(t) = shaped(lz, 0, 3, seed) {
+            targets.push((U::from_le_bytes(&t), format!("{lz} low zero bytes")));
+        }
+    }
+    for k in (0..=255usize).step_by(tier.pick(7, 1)) {
+        let mut p = [0u8; 32];
+        p[k / 8] = 1 << (k % 8);
+        let p = U::from_le_bytes(&p);
+        if p.cmp(&n) == std::cmp::Ordering::Less {
+            targets.push((n.sub(&p), format!("N - 2^{k}")));
+            targets.push((p.clone(), format!("2^{k}")));
+            // a little randomness below the power: N - 2^k + r and 2^k - r with r < 2^(k-1)
+            if k >= 16 {
+                let r = U::from_le_bytes(&refmodel::ctr_bytes(seed, &format!("steer-r-{k}"), (k - 1) / 8));
+                targets.push((n.sub(&p).add(&r), format!("N - 2^{k} + r")));
+                targets.push((p.sub(&r), format!("2^{k} - r")));
+            }
+        }
+    }
+    let bs: Vec<[u8; 32]> = vec![le32_from_u64(5), refmodel::ctr_array::<32>(seed, "steer-b"), [0xFF; 32]];
+    let two256 = {
+        let mut b = [0u8; 33];
+        b[32] = 1;
+        U::from_le_bytes(&b)
+    };
+    let mut cases = 0u64;
+    let mut quotients = std::collections::BTreeSet::new();
+    for (t, name) in &targets {
+        let t = t.rem(&n);
+        if t.is_zero() {
+            continue;
+        }
+        for b in &bs {
+            let bb = U::from_le_bytes(b);
+            let gb = U::from_u64(7).modpow(&bb, &n);
+            let v0 = U::submod(&t, &gb, &n).mulmod(&inv3, &n);
+            // the stored verifier is 32 arbitrary bytes: v0 and v0 + N (if it fits) give different quotients of (3v + g^b) / N
+            let mut vs = vec![v0.clone()];
+            let v1 = v0.add(&n);
+            if v1.cmp(&two256) == std::cmp::Ordering::Less {
+                vs.push(v1);
+            }
+            for v in vs {
+                let sum = U::from_u64(3).mul(&v).add(&gb);
+                let (q, want) = sum.divrem(&n);
+                if want != t {
+                    mc::util::machinery_error("C03: steering of the server public key failed in the reference model");
+                }
+                quotients.insert(q.to_le_padded::<8>()[0]);
+                let v_le = v.to_le_padded::<32>();
+                let ver = SrpVerifier::from_database_values(ns("A"), v_le, [0u8; 32]);
+                let (r, used, _log) = with_script(b, move || *ver.into_proof().server_public_key());
+                cases += 1;
+                let replay = json!({"target_B": t.to_hex_be(), "target_kind": name, "verifier_le": hex(&v_le), "b_le": hex(b), "quotient_of_3v_plus_g^b_by_N": q.to_hex_be()});
+                match r {
+                    Ok(bpub) => {
+                        if used < 32 {
+                            mc::util::machinery_error(&format!("C03: into_proof consumed {used} scripted bytes, expected at least 32"));
+                        }
+                        if bpub != want.to_le_padded::<32>() {
+                            viol(report, "steered-B|wrong-value", replay, format!("B = {} but (3v + g^b) mod N = {} ({name})", hex(&bpub), hex(&want.to_le_padded::<32>())));
+                        }
+                    }
+                    Err(m) => viol(report, "steered-B|panic", replay, format!("into_proof panicked for a verifier/private key pair whose B is the valid key {} ({name}): {m}", t.to_hex_be())),
+                }
+            }
+        }
+    }
+    report.count("steered_server_key_cases", cases);
+    report.set("steered_server_key_quotients_seen", json!(quotients));
+    report.require("steered_server_key_cases");
+}
+
 fn alt_interleave(t: &[u8]) -> [u8; 40] {
     let e: Vec<u8> = t.iter().step_by(2).copied().collect();
     let f: Vec<u8> = t.iter().skip(1).step_by(2).copied().collect();
